@@ -16,7 +16,7 @@ CP_AS = {"fpass": "pass", "freject": "reject", "fraise": "raise", "truthy": "pas
 PR = ["ok", "raise", "raise0"]
 EH = ["none", "ok", "raise", "raise0"]
 AMPS = ["1", "2", "4", "1/2", "8", "1/4", "0", "-2"]
-MAXA = ["4", "100", "1", "16"]
+MAXA = ["4", "100", "1", "16", "4", "100", "1/2", "1/4", "0"]
 
 
 def sig(x):
@@ -590,9 +590,11 @@ class C19(Prop):
                           out.append(Violation("success_with_failing_gate", "no success", o, idx))
                   elif fin != "none":
                       out.append(Violation("no_output_unless_success", "none", fin, idx))
-                  # 6. amplification = clamped product of completed stages' DECLARED factors (recovered stages count 1)
-                  if maxa >= 1:
-                      a = Fraction(1)
+                  # 6. amplification = clamped product of completed stages' DECLARED factors (recovered stages count 1):
+                  # the running gain, held at max_amplification from the start (also for a maximum below 1) and after
+                  # every completed stage
+                  if True:
+                      a = min(Fraction(1), maxa)
                       for r_ in res:
                           tag, fac = r_.split(":")
                           i = int(tag[:-1])
